@@ -15,6 +15,8 @@ def check(tree, rep, tier='quick', seed=0):
     R.k9_store_then_meet(core, rep)
     R.k10_refusal(core, rep)
     R.k12_schedule_once(core, rep)
+    R.k12c_who_calls(core, rep)
+    R.k13c_unknown_line_aborts(core, rep)
     R.k15_no_live_generator(core, rep)
     R.k8_input_store_writes(core, rep)
     R.k7_missing_key_raises(core, rep)   # a stored line never reads as missing again (a released waiter would wait forever)
